@@ -1,6 +1,7 @@
 """C20: parsing is a pure function of grammar and input, also across threads.
 Part 1: every ordered sequence of parse calls (length <= 3) per grammar, on one thread and on alternating
-        fresh threads, against the reference model (E1 harness, comparator history_case).
+        fresh threads, against the reference model, the same input parsed alone on a fresh thread and the same
+        input parsed alone in a fresh process (E1 harness, comparator history_case).
 Part 2: every interleaving of 2 (thorough: also 3) concurrent parses at rule-boundary granularity under
         shuttle's exhaustive DFS scheduler (engine/sched)."""
 import sys
@@ -20,6 +21,7 @@ def check(V, prop, tier):
         "distinct_schedule_outcomes": sch["distinct_outcomes"],
         "sequential_histories": hist["evaluations"],
         "histories_longer_than_one": hist["distinct_nontrivial"],
+        "fresh_process_baselines": hist.get("counters", {}).get("fresh_process_baselines", 0),
         "distinct_history_outcomes": hist["distinct_outcomes"],
         "grammars": hist["grammars_enumerated"],
         "grammar_families": hist["grammar_families"],
@@ -30,6 +32,7 @@ def check(V, prop, tier):
     rep.assumptions = [
         "scheduling points are the ParseTracer callbacks (every rule entry, rule exit, cache-hit/left-recursion notice); interleavings at finer granularity are not explored",
         "shuttle runs its threads as coroutines on one OS thread, so OS thread-locals are shared between them: hidden thread-local state shows up as shared state (intended); the harness' own thread-locals are not used in this mode",
+        "every input's history-free result comes from a fresh process running the same shard binary (`--one <case>`), so process-wide statics cannot hide in the baseline",
         "a supplementary free-running multi-thread run is not part of the verdict",
         "2 threads with 4..8 events each (quick 6 colliding pairs + one self-pair per grammar; thorough 20 pairs and two 3-thread groups with <= 4 events each)",
     ]
